@@ -92,6 +92,14 @@ func C18(c *fw.Ctx) {
 			cj.Projects[2] = proto.ConcProject{Name: "opt-enum-macro.jst", Content: macroDoc, SharedBan: [][]string{{"ENUM"}, {"MACRO"}}}
 			cj.Projects[5] = proto.ConcProject{Name: "opt-tag-enum.jst", Content: macroDoc, SharedBan: [][]string{{"TAG"}, {"ENUM"}}}
 			cj.Projects[6] = proto.ConcProject{Name: "opt-enum-type.jst", Content: macroDoc, SharedBan: [][]string{{"ENUM"}, {"TYPE"}}}
+			// error paths are where a lock stays locked or a pooled buffer is not given back: projects whose export to OpenAPI returns
+			// an error, a project that is rejected by a rule, one that is rejected by the scanner - every goroutine that comes after
+			// them must still get its result
+			cj.Projects[3] = proto.ConcProject{Name: "export-error-1.jst", Content: []byte("JSIGHT 0.3\nTYPE @t\n  {\"k\": 1}\nGET /c\n  200 any\n  200 empty\n  404 @t\n  500 [@t]\n  501 regex\n    /x/\n")}
+			cj.Projects[7] = proto.ConcProject{Name: "export-error-2.jst", Content: []byte("JSIGHT 0.3\nGET /q\n  Query \"a=1\"\n    [1, 2]\n  200 any\nPOST /q\n  Query \"b=2\"\n    \"s\"\n  201 empty\n")}
+			cj.Projects[12] = proto.ConcProject{Name: "rule-error.jst", Content: []byte("JSIGHT 0.3\nTYPE @t\n  {\"k\": 1}\nGET /a\n  200\n    {} // {or: [{type: \"object\"}, {type: \"array\"}]}\n")}
+			cj.Projects[14] = proto.ConcProject{Name: "rule-error-2.jst", Content: []byte("JSIGHT 0.3\nTYPE @t\n  {\"k\": @undefined}\nGET /a\n  200 @t\n")}
+			cj.Projects[13] = proto.ConcProject{Name: "scan-error.jst", Content: []byte("JSIGHT 0.3\nGET /a\n  200\n    {\"k\": \n")}
 			// projects with INCLUDE, built from disk: the include machinery (scanner stack, file reads) runs concurrently too
 			for slot := 8; slot < 12; {
 				p := corpus[r.Intn(len(corpus))]
